@@ -159,5 +159,7 @@ Example rsa_examples :
   key_size 8 [] = Err 1 /\ key_size 8 [0] = Err 1 /\ key_size 8 [0; 1] = Err 1 /\
   key_size 8 [5; 1; 2] = Err 1 /\ key_size 8 [1; 3] = Err 1 /\
   key_size 13 [1; 2; 3; 4] = Ok 16 /\ key_size 15 [1; 2; 3] = Ok 24 /\ key_size 3 [1] = Err 2 /\
-  rsa_encode [0; 1; 0; 1] [0; 200; 17] = Ok [3; 1; 0; 1; 200; 17].
+  rsa_encode [0; 1; 0; 1] [0; 200; 17] = Ok [3; 1; 0; 1; 200; 17] /\
+  map (fun a => key_size a [1; 3; 129]) [5; 7; 8; 10; 13; 14; 15; 16; 1; 12] =
+    [Ok 8; Ok 8; Ok 8; Ok 8; Ok 8; Ok 8; Ok 24; Ok 24; Err 2; Err 2].
 Proof. vm_compute. repeat split. Qed.
